@@ -55,6 +55,7 @@ def jobs(tier):
                     cfgs.append(cfg)
         for cfg in cfgs:
             out.append((c, cfg, tier))
+        out.append((c, (), tier, 'int'))      # integer-dtype interior array (a legal input): nothing may be truncated
     return out
 
 
@@ -80,9 +81,10 @@ def bc_atom(face, coef, a, P, d):
 
 
 def job(args):
-    cls, cfg, tier = args
+    cls, cfg, tier = args[:3]
+    dtype = args[3] if len(args) > 3 else 'real'
     sm = SourceModel()
-    w = World(sm, cls)
+    w = World(sm, cls, int_data=(dtype == 'int'))
     d = w.dim
     obs, samples, units = [], [], set()
     per_faces = set()
@@ -92,7 +94,7 @@ def job(args):
             per_faces.add(lo)
         if mode in ('both', 'high'):
             per_faces.add(hi)
-    cfgname = 'periodic=' + (','.join(f"{AX[a]}:{m}" for a, m in cfg) if cfg else 'none')
+    cfgname = 'periodic=' + (','.join(f"{AX[a]}:{m}" for a, m in cfg) if cfg else 'none') + (' dtype=int' if dtype == 'int' else '')
     cfg = tuple(a for a, _m in cfg)
 
     def ob(rule, construct, ok, detail='', loc=''):
@@ -102,7 +104,7 @@ def job(args):
     ri, _p, _c, _l = F.implementer(sm, 'boundary', 'boundaryConditionsTerm', cls)
     gfi, rfi = sm.func('boundary', gi), sm.func('boundary', ri)
     units.update({f"boundary.{gi}", f"boundary.{ri}"})
-    phi_int = Box(atom_array(('phi',), w.N, offset=tuple(ONE for _ in w.N)))
+    phi_int = Box(atom_array(('phi',), w.N, offset=tuple(ONE for _ in w.N), kind=dtype))
     try:
         ghost = snap(w.call('boundary', 'cellValuesWithBoundaries', phi_int, bc))
     except AbstractRaise as e:
@@ -214,7 +216,12 @@ def job(args):
         units.add('cell.CellVariable.plotprofile')
         pv = w.cell_variable('phi')
         try:
+            w.ctx.events.clear()
             out = w.interp.call_function(mi, [pv], self_obj=pv)
+            muts = [e for e in w.ctx.events if e[0] == 'input-mutated']
+            ob('B8', f"cell.CellVariable.plotprofile/{d}D/read-only", not muts,
+               f"plotprofile writes into the variable's own storage {muts[:2]}: the ghost layer no longer satisfies the boundary conditions afterwards" if muts
+               else "reporting the profile leaves the value array (ghost layer included) untouched", mi.loc())
             prof = snap(out[-1])
             for (face, a, side) in SIDES:
                 if a >= d:
